@@ -1,7 +1,1178 @@
 //! C13 — every sink encodes every event faithfully and never panics the caller.
+//!
+//! `check_event` drives ONE generated event through the real rolling-file writer, four real
+//! `emit_otlp` instances (all signals × protobuf/JSON, logs-only × protobuf/JSON) and the real terminal
+//! writer (child process) and judges what came out against the harness' own reference model of the
+//! event (`event.rs`). The oracle is derived from the property text and DESIGN §C13; everything the
+//! text leaves open is counted as don't-care.
+
 pub mod event;
 pub mod http;
 pub mod jsonp;
 pub mod node;
 pub mod otlp;
 pub mod sinks;
+
+use emit::Emitter;
+use event::{Cap, Ev, Ext, Num, TplPart, PV, RV};
+use jsonp::JV;
+use node::Node;
+use otlp::{Attrs, Decoded, LogRec, MData, MetricRec, Point, SpanRec, AV};
+use vcore::{vassert, Cx, Fail, Res};
+
+pub const RESERVED: [&str; 5] = ["mdl", "tpl", "msg", "ts", "ts_start"];
+pub const WELL_KNOWN: [&str; 13] = [
+    "evt_kind", "lvl", "err", "span_name", "trace_id", "span_id", "span_parent", "metric_name", "metric_agg",
+    "metric_value", "metric_unit", "exception.message", "exception.stacktrace",
+];
+
+/// Signatures of the defects this check is expected to re-find on the pinned tree.
+pub const SIG_D10_SCALAR: &str = "otlp/panic-on-non-string-map-key/scalar";
+pub const SIG_D10_COMPOSITE: &str = "otlp/panic-on-non-string-map-key/composite";
+pub const SIG_D11_DUP: &str = "otlp-metrics/duplicate-attribute-key";
+pub const SIG_D11_UNIT: &str = "otlp-metrics/unit-not-first-value";
+pub const SIG_FILE_COMPOSITE: &str = "file/invalid-json-line/composite-map-key";
+pub const SIG_FILE_TAGGED: &str = "file/invalid-json-line/tagged-map-key";
+pub const SIG_NULL_DROP: &str = "otlp-proto/array-drops-null-element";
+pub const SIG_POINT_MEMBER: &str = "otlp-metrics-json/non-standard-point-value-member";
+
+// ---------------------------------------------------------------------------------------------
+// small helpers
+
+fn brief(s: impl std::fmt::Debug) -> String {
+    let s = format!("{s:?}");
+    if s.len() > 600 {
+        let mut e = 600;
+        while !s.is_char_boundary(e) {
+            e -= 1;
+        }
+        format!("{}…", &s[..e])
+    } else {
+        s
+    }
+}
+
+/// Strict RFC 3339 (UTC, `Z`) → (unix seconds, nanoseconds); independent of emit's parser.
+pub fn parse_rfc3339(s: &str) -> Option<(u64, u32)> {
+    let b = s.as_bytes();
+    if b.len() < 20 || *b.last()? != b'Z' {
+        return None;
+    }
+    let num = |r: std::ops::Range<usize>| -> Option<u64> {
+        let t = s.get(r)?;
+        if t.is_empty() || !t.bytes().all(|c| c.is_ascii_digit()) {
+            return None;
+        }
+        t.parse().ok()
+    };
+    if b[4] != b'-' || b[7] != b'-' || b[10] != b'T' || b[13] != b':' || b[16] != b':' {
+        return None;
+    }
+    let (y, mo, d, h, mi, sec) = (num(0..4)?, num(5..7)?, num(8..10)?, num(11..13)?, num(14..16)?, num(17..19)?);
+    let nanos = if b[19] == b'.' {
+        let frac = s.get(20..b.len() - 1)?;
+        if frac.is_empty() || frac.len() > 9 || !frac.bytes().all(|c| c.is_ascii_digit()) {
+            return None;
+        }
+        let mut n: u32 = frac.parse().ok()?;
+        for _ in frac.len()..9 {
+            n *= 10;
+        }
+        n
+    } else if b.len() == 20 {
+        0
+    } else {
+        return None;
+    };
+    if !(1..=12).contains(&mo) || !(1..=31).contains(&d) || h > 23 || mi > 59 || sec > 59 || y < 1970 {
+        return None;
+    }
+    // days from civil (Howard Hinnant)
+    let (y2, m2) = (if mo <= 2 { y as i64 - 1 } else { y as i64 }, mo as i64);
+    let era = y2.div_euclid(400);
+    let yoe = y2 - era * 400;
+    let doy = (153 * (if m2 > 2 { m2 - 3 } else { m2 + 9 }) + 2) / 5 + d as i64 - 1;
+    let doe = yoe * 365 + yoe / 4 - yoe / 100 + doy;
+    let days = era * 146097 + doe - 719468;
+    if days < 0 {
+        return None;
+    }
+    Some((days as u64 * 86400 + h * 3600 + mi * 60 + sec, nanos))
+}
+
+#[derive(Debug)]
+pub struct Mismatch {
+    pub null_dropped: bool,
+    pub detail: String,
+}
+
+fn mm(path: &str, what: impl Into<String>) -> Mismatch {
+    Mismatch { null_dropped: false, detail: format!("at {path}: {}", what.into()) }
+}
+
+fn f64_same(expected: u64, actual: u64) -> bool {
+    let (e, a) = (f64::from_bits(expected), f64::from_bits(actual));
+    if e.is_nan() {
+        a.is_nan()
+    } else {
+        expected == actual
+    }
+}
+
+/// Reference value vs a JSON value of the file writer.
+pub fn match_json(rv: &RV, jv: &JV, path: &str) -> Result<(), Mismatch> {
+    match (rv, jv) {
+        (RV::Any, _) => Ok(()),
+        (RV::Null, JV::Null) => Ok(()),
+        (RV::Bool(a), JV::Bool(b)) if a == b => Ok(()),
+        (RV::Int(dec), JV::Num(tok)) if dec == tok => Ok(()),
+        (RV::F64(bits), j) => {
+            let f = f64::from_bits(*bits);
+            match j {
+                // non-finite: representation is don't-care (null / the proto3 strings)
+                JV::Null if !f.is_finite() => Ok(()),
+                JV::Str(s) if !f.is_finite() && matches!(s.as_str(), "NaN" | "Infinity" | "-Infinity") => Ok(()),
+                JV::Num(tok) if f.is_finite() && tok.parse::<f64>().map(|p| p.to_bits() == *bits).unwrap_or(false) => Ok(()),
+                _ => Err(mm(path, format!("expected f64 {f:?}, got {}", j.brief()))),
+            }
+        }
+        (RV::F32(bits), j) => {
+            let f = f32::from_bits(*bits);
+            match j {
+                JV::Null if !f.is_finite() => Ok(()),
+                JV::Str(s) if !f.is_finite() && matches!(s.as_str(), "NaN" | "Infinity" | "-Infinity") => Ok(()),
+                JV::Num(tok)
+                    if f.is_finite()
+                        && (tok.parse::<f32>().map(|p| p.to_bits() == *bits).unwrap_or(false)
+                            || tok.parse::<f64>().map(|p| p.to_bits() == (f as f64).to_bits()).unwrap_or(false)) =>
+                {
+                    Ok(())
+                }
+                _ => Err(mm(path, format!("expected f32 {f:?}, got {}", j.brief()))),
+            }
+        }
+        (RV::Str(a), JV::Str(b)) if a == b => Ok(()),
+        (RV::Bytes(a), JV::Arr(items)) => {
+            let ok = a.len() == items.len()
+                && a.iter().zip(items).all(|(x, y)| matches!(y, JV::Num(t) if t.parse::<u8>().ok() == Some(*x)));
+            if ok {
+                Ok(())
+            } else {
+                Err(mm(path, format!("expected bytes {a:?}, got {}", jv.brief())))
+            }
+        }
+        // base64 text would denote the same bytes
+        (RV::Bytes(_), JV::Str(_)) => Ok(()),
+        (RV::Seq(a), JV::Arr(b)) => {
+            if a.len() != b.len() {
+                return Err(mm(path, format!("expected {} elements, got {}", a.len(), b.len())));
+            }
+            for (i, (x, y)) in a.iter().zip(b).enumerate() {
+                match_json(x, y, &format!("{path}[{i}]"))?;
+            }
+            Ok(())
+        }
+        (RV::Map(a), JV::Obj(b)) => {
+            if a.len() != b.len() {
+                return Err(mm(path, format!("expected {} members, got {}: {}", a.len(), b.len(), jv.brief())));
+            }
+            for ((k1, x), (k2, y)) in a.iter().zip(b) {
+                if k1 != k2 {
+                    return Err(mm(path, format!("expected member {k1:?}, got {k2:?}")));
+                }
+                match_json(x, y, &format!("{path}.{k1}"))?;
+            }
+            Ok(())
+        }
+        (r, j) => Err(mm(path, format!("expected {}, got {}", brief(r), j.brief()))),
+    }
+}
+
+/// Reference value vs an OTLP AnyValue (protobuf or JSON reading).
+pub fn match_av(rv: &RV, av: &AV, is_json: bool, path: &str) -> Result<(), Mismatch> {
+    match (rv, av) {
+        (RV::Any, _) => Ok(()),
+        (RV::Null, AV::Absent) => Ok(()),
+        (RV::Bool(a), AV::Bool(b)) if a == b => Ok(()),
+        (RV::Int(dec), a) => match (dec.parse::<i64>(), a) {
+            (Ok(v), AV::Int(x)) if v == *x => Ok(()),
+            // OTLP has no integers beyond i64: decimal text
+            (Err(_), AV::Str(s)) if s == dec => Ok(()),
+            _ => Err(mm(path, format!("expected integer {dec}, got {}", brief(a)))),
+        },
+        (RV::F64(bits), a) => match a {
+            AV::Double(b) if f64_same(*bits, *b) => Ok(()),
+            AV::DoubleNull if is_json && !f64::from_bits(*bits).is_finite() => Ok(()),
+            _ => Err(mm(path, format!("expected double {:?}, got {}", f64::from_bits(*bits), brief(a)))),
+        },
+        (RV::F32(bits), a) => {
+            let wide = (f32::from_bits(*bits) as f64).to_bits();
+            match a {
+                AV::Double(b) if f64_same(wide, *b) => Ok(()),
+                AV::DoubleNull if is_json && !f32::from_bits(*bits).is_finite() => Ok(()),
+                _ => Err(mm(path, format!("expected double {:?}, got {}", f32::from_bits(*bits), brief(a)))),
+            }
+        }
+        (RV::Str(a), AV::Str(b)) if a == b => Ok(()),
+        (RV::Bytes(a), AV::Bytes(b)) if a == b => Ok(()),
+        (RV::Seq(a), AV::Array(b)) => {
+            if a.len() != b.len() {
+                let mut m = mm(path, format!("expected {} elements, got {}: {}", a.len(), b.len(), brief(b)));
+                // does `b` equal `a` with some null (or possibly-null exotic) elements left out?
+                if !is_json && b.len() < a.len() {
+                    fn align(a: &[RV], b: &[AV], path: &str) -> bool {
+                        let Some((x, rest)) = a.split_first() else { return b.is_empty() };
+                        if let Some((y, brest)) = b.split_first() {
+                            if !matches!(x, RV::Null) && match_av(x, y, false, path).map_or_else(|m| m.null_dropped, |_| true) && align(rest, brest, path) {
+                                return true;
+                            }
+                        }
+                        matches!(x, RV::Null | RV::Any) && align(rest, b, path)
+                    }
+                    m.null_dropped = align(a, b, path);
+                }
+                return Err(m);
+            }
+            for (i, (x, y)) in a.iter().zip(b).enumerate() {
+                match_av(x, y, is_json, &format!("{path}[{i}]"))?;
+            }
+            Ok(())
+        }
+        (RV::Map(a), AV::Kv(b)) => {
+            if a.len() != b.len() {
+                return Err(mm(path, format!("expected {} entries, got {}: {}", a.len(), b.len(), brief(b))));
+            }
+            for ((k1, x), (k2, y)) in a.iter().zip(b) {
+                if k1 != k2 {
+                    return Err(mm(path, format!("expected key {k1:?}, got {k2:?}")));
+                }
+                match_av(x, y, is_json, &format!("{path}.{k1}"))?;
+            }
+            Ok(())
+        }
+        (r, a) => Err(mm(path, format!("expected {}, got {}", brief(r), brief(a)))),
+    }
+}
+
+fn node_has_null_in_seq(n: &Node) -> bool {
+    // elements that reach the OTLP AnyValue stream as a bare `null` (tags and options are transparent there)
+    fn nullish(x: &Node) -> bool {
+        match x {
+            Node::Null | Node::Unit | Node::None => true,
+            Node::Some(v) => nullish(v),
+            Node::Variant { body: node::VBody::Newtype(v), .. } => nullish(v),
+            _ => false,
+        }
+    }
+    match n {
+        Node::Seq(items) | Node::Tuple(items) => items.iter().any(|i| nullish(i) || node_has_null_in_seq(i)),
+        Node::Some(v) => node_has_null_in_seq(v),
+        Node::Map(e) => e.iter().any(|(k, v)| node_has_null_in_seq(k) || node_has_null_in_seq(v)),
+        Node::Struct { fields, .. } => fields.iter().any(node_has_null_in_seq),
+        Node::Variant { body, .. } => match body {
+            node::VBody::Unit => false,
+            node::VBody::Newtype(v) => node_has_null_in_seq(v),
+            node::VBody::Tuple(items) => items.iter().any(|i| nullish(i) || node_has_null_in_seq(i)),
+            node::VBody::Struct { fields, .. } => fields.iter().any(node_has_null_in_seq),
+        },
+        _ => false,
+    }
+}
+
+fn structured_nodes(ev: &Ev) -> impl Iterator<Item = &Node> {
+    ev.props.iter().filter_map(|p| match &p.val {
+        PV::Node { node, cap: Cap::Sval | Cap::Serde | Cap::Prim } => Some(node),
+        _ => None,
+    })
+}
+
+pub fn event_shape(ev: &Ev) -> node::Shape {
+    let mut s = node::Shape::default();
+    for n in structured_nodes(ev) {
+        s.merge(node::shape(n));
+    }
+    s
+}
+
+fn strip_null_elems(av: &AV) -> AV {
+    match av {
+        AV::Array(items) => AV::Array(items.iter().filter(|i| !matches!(i, AV::Absent)).map(strip_null_elems).collect()),
+        AV::Kv(items) => AV::Kv(items.iter().map(|(k, v)| (k.clone(), strip_null_elems(v))).collect()),
+        other => other.clone(),
+    }
+}
+
+fn strip_decoded(d: &Decoded) -> Decoded {
+    let fix = |a: &Attrs| -> Attrs { a.iter().map(|(k, v)| (k.clone(), strip_null_elems(v))).collect() };
+    let mut d = d.clone();
+    for l in &mut d.logs {
+        l.attrs = fix(&l.attrs);
+    }
+    for s in &mut d.spans {
+        s.attrs = fix(&s.attrs);
+        for e in &mut s.events {
+            e.attrs = fix(&e.attrs);
+        }
+    }
+    for m in &mut d.metrics {
+        let pts = match &mut m.data {
+            MData::Gauge(p) => p,
+            MData::Sum { points, .. } => points,
+            _ => continue,
+        };
+        for p in pts {
+            p.attrs = fix(&p.attrs);
+        }
+    }
+    d
+}
+
+// ---------------------------------------------------------------------------------------------
+// classification
+
+pub fn intended_kind(ev: &Ev) -> &'static str {
+    match ev.first("evt_kind").and_then(event::plain_text).as_deref() {
+        Some("span") => "span",
+        Some("metric") => "metric",
+        _ => "log",
+    }
+}
+
+pub fn classify(ev: &Ev, cx: &mut Cx) -> node::Shape {
+    let s = event_shape(ev);
+    let dup = ev.has_duplicate_keys();
+    cx.class(&format!("kind-{}", intended_kind(ev)));
+    cx.class_if(dup, "duplicate-key");
+    cx.class_if(s.depth >= 2, "value-depth>=2");
+    cx.class_if(s.non_string_key(), "non-string-map-key");
+    cx.class_if(s.scalar_key, "scalar-map-key");
+    cx.class_if(s.composite_key, "composite-map-key");
+    cx.class_if(s.wide_int || s.non_finite, "128-bit-or-non-finite");
+    cx.class_if(s.wide_int, "wide-int");
+    cx.class_if(s.non_finite, "non-finite-float");
+    cx.class_if(s.exotic, "enum-variant");
+    cx.class_if(s.bytes, "bytes");
+    cx.class_if(ev.props.iter().any(|p| matches!(p.val, PV::Error(ref c) if c.len() > 1)), "error-chain");
+    cx.class_if(ev.props.iter().any(|p| matches!(p.val, PV::Node { cap: Cap::Serde, .. })), "capture-serde");
+    cx.class_if(ev.props.iter().any(|p| matches!(p.val, PV::Node { cap: Cap::Sval, .. })), "capture-sval");
+    cx.class_if(ev.props.iter().any(|p| matches!(p.val, PV::Node { cap: Cap::Display | Cap::Debug, .. })), "capture-text");
+    cx.class_if(matches!(ev.extent, Ext::Range(..)), "extent-range");
+    cx.class_if(matches!(ev.extent, Ext::None), "extent-none");
+    cx.nontrivial(s.depth >= 2 || dup || s.non_string_key() || s.wide_int || s.non_finite);
+    s
+}
+
+// ---------------------------------------------------------------------------------------------
+// panics
+
+fn emit_panic_sig(sink: &str, shape: &node::Shape, p: &Fail) -> String {
+    if p.msg.contains("data/any_value.rs") && p.msg.contains("not yet implemented") {
+        if shape.composite_key {
+            return SIG_D10_COMPOSITE.to_string();
+        }
+        return SIG_D10_SCALAR.to_string();
+    }
+    format!("{sink}/panic-on-emit/{}", p.sig)
+}
+
+// ---------------------------------------------------------------------------------------------
+// file
+
+fn ts_nanos(t: &event::Ts) -> u128 {
+    t.nanos()
+}
+
+pub fn check_file(ev: &Ev, shape: &node::Shape, bytes: &[u8], cx: &mut Cx, rendered: &mut Vec<(String, String)>) -> Res {
+    let Ok(text) = std::str::from_utf8(bytes) else {
+        return cx.fail("file/not-utf8", format!("file content is not UTF-8: {}", brief(String::from_utf8_lossy(bytes))));
+    };
+    if text.is_empty() {
+        return cx.fail("file/event-missing", "nothing was written for the event");
+    }
+    vassert!(cx, text.ends_with('\n'), "file/missing-separator", "record does not end with a newline: {}", brief(text));
+    let lines: Vec<&str> = text[..text.len() - 1].split('\n').collect();
+    vassert!(cx, lines.len() == 1, "file/line-count", "one event produced {} lines: {}", lines.len(), brief(text));
+    let line = lines[0];
+    let jv = match jsonp::parse(line) {
+        Ok(j) => j,
+        Err(e) => {
+            let sig = if shape.composite_key {
+                SIG_FILE_COMPOSITE
+            } else if shape.tagged_key {
+                SIG_FILE_TAGGED
+            } else {
+                "file/invalid-json-line"
+            };
+            return cx.fail(sig, format!("line is not valid JSON ({e}): {}", brief(line)));
+        }
+    };
+    let Some(obj) = jv.as_obj() else {
+        return cx.fail("file/not-an-object", format!("line is not a JSON object: {}", brief(line)));
+    };
+    for (i, (k, _)) in obj.iter().enumerate() {
+        if obj[..i].iter().any(|(k2, _)| k2 == k) {
+            cx.fail("file/duplicate-key", format!("key {k:?} appears twice in {}", brief(line)))?;
+        }
+    }
+    // fixed fields
+    let ts_of = |k: &str| jv.get(k).and_then(|v| v.as_str()).and_then(parse_rfc3339).map(|(s, n)| s as u128 * 1_000_000_000 + n as u128);
+    match &ev.extent {
+        Ext::None => {
+            vassert!(cx, jv.get("ts").is_none() && jv.get("ts_start").is_none(), "file/timestamp", "event without extent has a timestamp: {}", brief(line));
+        }
+        Ext::Point(t) => {
+            vassert!(cx, ts_of("ts") == Some(ts_nanos(t)), "file/timestamp", "ts {:?} does not denote {:?}", jv.get("ts"), t);
+            vassert!(cx, jv.get("ts_start").is_none(), "file/timestamp", "point event has ts_start: {}", brief(line));
+        }
+        Ext::Range(a, b) => {
+            vassert!(cx, ts_of("ts") == Some(ts_nanos(b)), "file/timestamp", "ts {:?} does not denote {:?}", jv.get("ts"), b);
+            vassert!(cx, ts_of("ts_start") == Some(ts_nanos(a)), "file/ts-start", "ts_start {:?} does not denote {:?}", jv.get("ts_start"), a);
+        }
+    }
+    vassert!(cx, jv.get("mdl").and_then(|v| v.as_str()) == Some(&ev.mdl_text()), "file/mdl", "mdl {:?} != {:?}", jv.get("mdl"), ev.mdl_text());
+    match jv.get("msg").and_then(|v| v.as_str()) {
+        None => cx.fail("file/msg", format!("msg missing or not text: {}", brief(line)))?,
+        Some(m) => {
+            if let Some(r) = ev.ref_msg() {
+                vassert!(cx, m == r, "file/msg", "msg {:?} != reference rendering {:?}", m, r);
+            } else {
+                cx.dont_care();
+            }
+            rendered.push(("file".into(), m.to_string()));
+        }
+    }
+    match jv.get("tpl").and_then(|v| v.as_str()) {
+        None => cx.fail("file/tpl", format!("tpl missing or not text: {}", brief(line)))?,
+        Some(t) => {
+            if let Some(r) = ev.ref_tpl() {
+                vassert!(cx, t == r, "file/tpl", "tpl {:?} != {:?}", t, r);
+            } else {
+                cx.dont_care();
+            }
+        }
+    }
+    // properties: each key once, first value, structure preserved
+    let dd = ev.dedup();
+    for (k, pv) in &dd {
+        let Some(actual) = jv.get(k).or_else(|| obj.iter().find(|(k2, _)| k2 == k).map(|(_, v)| v)) else {
+            cx.fail("file/property-missing", format!("property {k:?} is missing from {}", brief(line)))?;
+            continue;
+        };
+        if let Err(m) = match_json(&event::ref_value(pv), actual, k) {
+            let later = ev.props.iter().filter(|p| p.key == *k).skip(1).any(|p| match_json(&event::ref_value(&p.val), actual, k).is_ok());
+            let sig = if later { "file/not-first-value" } else { "file/value-mismatch" };
+            cx.fail(sig, format!("property {k:?}: {}", m.detail))?;
+        }
+    }
+    for (k, _) in obj {
+        if !RESERVED.contains(&k.as_str()) && !dd.iter().any(|(k2, _)| k2 == k) {
+            cx.fail("file/unexpected-key", format!("key {k:?} is not a property of the event: {}", brief(line)))?;
+        }
+    }
+    Ok(())
+}
+
+// ---------------------------------------------------------------------------------------------
+// OTLP
+
+struct Expect {
+    key: String,
+    rv: RV,
+    later: Vec<RV>,
+}
+
+fn expectations<'a>(ev: &'a Ev, skip: impl Fn(&str, &PV) -> bool) -> Vec<Expect> {
+    ev.dedup()
+        .into_iter()
+        .filter(|(k, pv)| !skip(k, pv))
+        .map(|(k, pv)| Expect {
+            key: k.to_string(),
+            rv: event::ref_value(pv),
+            later: ev.props.iter().filter(|p| p.key == k).skip(1).map(|p| event::ref_value(&p.val)).collect(),
+        })
+        .collect()
+}
+
+/// Attribute list vs expectations: unique keys, every expected key once with its first value, nothing
+/// unexpected (`ignore` = keys the oracle has no opinion about).
+fn check_attrs(sink: &str, attrs: &Attrs, expected: &[Expect], ignore: &[&str], is_json: bool, cx: &mut Cx) -> Res {
+    for (i, (k, _)) in attrs.iter().enumerate() {
+        if attrs[..i].iter().any(|(k2, _)| k2 == k) {
+            cx.fail(format!("{sink}/duplicate-attribute-key"), format!("attribute key {k:?} appears more than once: {}", brief(attrs)))?;
+            break;
+        }
+    }
+    for e in expected {
+        let Some((_, av)) = attrs.iter().find(|(k, _)| *k == e.key) else {
+            cx.fail(format!("{sink}/property-missing"), format!("property {:?} is not among the attributes {}", e.key, brief(attrs)))?;
+            continue;
+        };
+        if let Err(m) = match_av(&e.rv, av, is_json, &e.key) {
+            let sig = if m.null_dropped {
+                SIG_NULL_DROP.to_string()
+            } else if e.later.iter().any(|l| match_av(l, av, is_json, &e.key).is_ok()) {
+                format!("{sink}/not-first-value")
+            } else {
+                format!("{sink}/value-mismatch")
+            };
+            cx.fail(sig, format!("attribute {:?}: {}", e.key, m.detail))?;
+        }
+    }
+    for (k, _) in attrs {
+        if !expected.iter().any(|e| e.key == *k) && !ignore.contains(&k.as_str()) {
+            cx.fail(format!("{sink}/unexpected-attribute"), format!("attribute {k:?} is not a property of the event: {}", brief(attrs)))?;
+        }
+    }
+    Ok(())
+}
+
+fn end_nanos(ev: &Ev) -> Option<u128> {
+    match &ev.extent {
+        Ext::None => None,
+        Ext::Point(t) => Some(t.nanos()),
+        Ext::Range(_, b) => Some(b.nanos()),
+    }
+}
+
+fn fits(n: u128) -> Option<u64> {
+    u64::try_from(n).ok()
+}
+
+/// `exception.message` / `exception.stacktrace` from the first `err`
+fn check_exception(sink: &str, attrs: &Attrs, err: &PV, is_json: bool, cx: &mut Cx) -> Res {
+    match attrs.iter().find(|(k, _)| k == "exception.message") {
+        None => cx.fail(format!("{sink}/exception-message-missing"), format!("err is set but there is no exception.message in {}", brief(attrs)))?,
+        Some((_, av)) => {
+            if let Err(m) = match_av(&event::ref_value(err), av, is_json, "exception.message") {
+                let sig = if m.null_dropped { SIG_NULL_DROP.to_string() } else { format!("{sink}/exception-message") };
+                cx.fail(sig, m.detail)?;
+            }
+        }
+    }
+    if let PV::Error(chain) = err {
+        let st = attrs.iter().find(|(k, _)| k == "exception.stacktrace");
+        if chain.len() > 1 {
+            match st {
+                Some((_, AV::Str(text))) => {
+                    let mut pos = 0;
+                    for cause in &chain[1..] {
+                        match text[pos..].find(cause.as_str()) {
+                            Some(p) => pos += p + cause.len(),
+                            None => {
+                                cx.fail(format!("{sink}/exception-stacktrace"), format!("cause {cause:?} missing (in order) from {text:?}"))?;
+                                break;
+                            }
+                        }
+                    }
+                }
+                other => cx.fail(format!("{sink}/exception-stacktrace"), format!("error has a source chain but exception.stacktrace is {other:?}"))?,
+            }
+        } else {
+            vassert!(cx, st.is_none(), format!("{sink}/exception-stacktrace"), "error without source has a stacktrace {:?}", st);
+        }
+    }
+    Ok(())
+}
+
+fn check_log(ev: &Ev, r: &LogRec, is_json: bool, cx: &mut Cx, rendered: &mut Vec<(String, String)>) -> Res {
+    let sink = "otlp-logs";
+    vassert!(cx, r.scope == ev.mdl_text(), "otlp/scope", "scope {:?} != module {:?}", r.scope, ev.mdl_text());
+    vassert!(cx, r.other.is_empty(), "otlp-logs/unexpected-field", "fields outside the mapping are set: {}", r.other);
+    match end_nanos(ev).map(fits) {
+        Some(Some(n)) => {
+            vassert!(cx, r.time == n && r.observed == n, "otlp-logs/timestamp", "time {} / observed {} != {}", r.time, r.observed, n);
+        }
+        _ => cx.dont_care(),
+    }
+    match &r.body {
+        Some(AV::Str(m)) => {
+            if let Some(rm) = ev.ref_msg() {
+                vassert!(cx, *m == rm, "otlp-logs/body", "body {:?} != reference rendering {:?}", m, rm);
+            }
+            rendered.push((format!("otlp-logs-{}", if is_json { "json" } else { "proto" }), m.clone()));
+        }
+        other => cx.fail("otlp-logs/body", format!("body is not the rendered message: {other:?}"))?,
+    }
+    let mut ignore: Vec<&str> = Vec::new();
+    // severity
+    match ev.first("lvl") {
+        None => cx.dont_care(),
+        Some(pv) => match event::valid_level(pv) {
+            Some(l) => {
+                let num = [5, 9, 13, 17][l];
+                vassert!(cx, r.sev_num == num && r.sev_text == event::LEVELS[l], "otlp-logs/severity", "severity {} {:?} for lvl {:?}", r.sev_num, r.sev_text, event::LEVELS[l]);
+            }
+            None => {
+                cx.dont_care();
+                ignore.push("lvl");
+            }
+        },
+    }
+    // ids
+    for (key, len, actual) in [("trace_id", 16, &r.trace_id), ("span_id", 8, &r.span_id)] {
+        match ev.first(key) {
+            None => vassert!(cx, actual.is_empty(), format!("otlp-logs/unexpected-{key}"), "{key} field {:?} set without the property", actual),
+            Some(pv) => {
+                let valid = if len == 16 { event::valid_trace_id(pv) } else { event::valid_span_id(pv) };
+                match valid {
+                    Some(b) => vassert!(cx, *actual == b, format!("otlp-logs/{key}"), "{key} field {:?} != {:?}", actual, b),
+                    None => {
+                        cx.dont_care();
+                        ignore.push(key);
+                    }
+                }
+            }
+        }
+    }
+    let expected = expectations(ev, |k, _| matches!(k, "lvl" | "trace_id" | "span_id" | "err"));
+    if let Some(err) = ev.first("err") {
+        check_exception(sink, &r.attrs, err, is_json, cx)?;
+        ignore.extend(["exception.message", "exception.stacktrace"]);
+    }
+    check_attrs(sink, &r.attrs, &expected, &ignore, is_json, cx)
+}
+
+fn check_span(ev: &Ev, r: &SpanRec, is_json: bool, cx: &mut Cx, rendered: &mut Vec<(String, String)>) -> Res {
+    let sink = "otlp-traces";
+    vassert!(cx, r.scope == ev.mdl_text(), "otlp/scope", "scope {:?} != module {:?}", r.scope, ev.mdl_text());
+    vassert!(cx, r.other.is_empty(), "otlp-traces/unexpected-field", "fields outside the mapping are set: {}", r.other);
+    match &ev.extent {
+        Ext::Range(a, b) => match (fits(a.nanos()), fits(b.nanos())) {
+            (Some(s), Some(e)) => {
+                vassert!(cx, r.start == s, "otlp-traces/start-time", "start {} != {}", r.start, s);
+                vassert!(cx, r.end == e, "otlp-traces/end-time", "end {} != {}", r.end, e);
+            }
+            _ => cx.dont_care(),
+        },
+        _ => cx.fail("otlp-traces/not-a-range", "an event without a range extent became a span")?,
+    }
+    // name = span_name if given, else the rendered message
+    match ev.first("span_name") {
+        Some(pv) => match event::plain_text(pv) {
+            Some(t) => vassert!(cx, r.name == t, "otlp-traces/name", "name {:?} != span_name {:?}", r.name, t),
+            None => cx.dont_care(),
+        },
+        None => {
+            if let Some(m) = ev.ref_msg() {
+                vassert!(cx, r.name == m, "otlp-traces/name", "name {:?} != rendered message {:?}", r.name, m);
+            }
+            rendered.push((format!("otlp-traces-{}", if is_json { "json" } else { "proto" }), r.name.clone()));
+        }
+    }
+    let mut ignore: Vec<&str> = vec!["evt_kind"];
+    for (key, len, actual) in [("trace_id", 16, &r.trace_id), ("span_id", 8, &r.span_id), ("span_parent", 8, &r.parent_span_id)] {
+        match ev.first(key) {
+            None => vassert!(cx, actual.is_empty(), format!("otlp-traces/unexpected-{key}"), "{key} field {:?} set without the property", actual),
+            Some(pv) => {
+                let valid = if len == 16 { event::valid_trace_id(pv) } else { event::valid_span_id(pv) };
+                match valid {
+                    Some(b) => vassert!(cx, *actual == b, format!("otlp-traces/{key}"), "{key} field {:?} != {:?}", actual, b),
+                    None => {
+                        cx.dont_care();
+                        ignore.push(key);
+                    }
+                }
+            }
+        }
+    }
+    // status / exception event
+    let level = ev.first("lvl").and_then(event::valid_level);
+    if ev.first("lvl").is_some() && level.is_none() {
+        ignore.push("lvl");
+    }
+    match ev.first("err") {
+        Some(err) => {
+            match &r.status {
+                Some((msg, 2)) => {
+                    let top = match err {
+                        PV::Error(chain) => chain.first().cloned(),
+                        other => event::display_text(other),
+                    };
+                    if let Some(t) = top {
+                        vassert!(cx, msg.starts_with(&t), "otlp-traces/status-message", "status message {:?} does not start with the error text {:?}", msg, t);
+                    }
+                }
+                other => cx.fail("otlp-traces/status", format!("err is set but status is {other:?} (expected code 2 = error)"))?,
+            }
+            let exc: Vec<_> = r.events.iter().filter(|e| e.name == "exception").collect();
+            vassert!(cx, exc.len() == 1 && r.events.len() == 1, "otlp-traces/exception-event", "expected exactly one exception event, got {}", brief(&r.events));
+            if let Some(e) = exc.first() {
+                vassert!(cx, e.other.is_empty(), "otlp-traces/unexpected-field", "event fields outside the mapping are set: {}", e.other);
+                vassert!(cx, e.time == r.end, "otlp-traces/exception-event-time", "exception event time {} != span end {}", e.time, r.end);
+                check_exception("otlp-traces", &e.attrs, err, is_json, cx)?;
+                for (i, (k, _)) in e.attrs.iter().enumerate() {
+                    vassert!(cx, !e.attrs[..i].iter().any(|(k2, _)| k2 == k), "otlp-traces/duplicate-attribute-key", "event attribute {:?} twice", k);
+                    vassert!(cx, k == "exception.message" || k == "exception.stacktrace", "otlp-traces/unexpected-attribute", "event attribute {:?}", k);
+                }
+            }
+        }
+        None => {
+            vassert!(cx, r.events.is_empty(), "otlp-traces/exception-event", "no err but events {}", brief(&r.events));
+            match level {
+                Some(l) => {
+                    let code = if l >= 2 { 2 } else { 1 };
+                    match &r.status {
+                        Some((_, c)) if *c == code => {}
+                        other => cx.fail("otlp-traces/status", format!("lvl {:?} but status is {other:?} (expected code {code})", event::LEVELS[l]))?,
+                    }
+                }
+                None => cx.dont_care(),
+            }
+        }
+    }
+    let expected = expectations(ev, |k, _| matches!(k, "evt_kind" | "span_name" | "lvl" | "trace_id" | "span_id" | "span_parent" | "err"));
+    check_attrs(sink, &r.attrs, &expected, &ignore, is_json, cx)
+}
+
+fn num_matches(n: &Num, v: &otlp::PV, is_json: bool) -> bool {
+    match (n, v) {
+        (Num::Int(a), otlp::PV::Int(b)) => a == b,
+        (Num::Dbl(a), otlp::PV::Double(b)) => f64_same(*a, *b),
+        (Num::Dbl(a), otlp::PV::DoubleNull) => is_json && !f64::from_bits(*a).is_finite(),
+        // `"value": 5` read back from JSON cannot tell 5 from 5.0
+        (Num::Dbl(a), otlp::PV::Int(b)) => is_json && f64::from_bits(*a) == *b as f64,
+        _ => false,
+    }
+}
+
+fn check_metric(ev: &Ev, r: &MetricRec, is_json: bool, cx: &mut Cx, rendered: &mut Vec<(String, String)>) -> Res {
+    let sink = "otlp-metrics";
+    vassert!(cx, r.scope == ev.mdl_text(), "otlp/scope", "scope {:?} != module {:?}", r.scope, ev.mdl_text());
+    vassert!(cx, r.other.is_empty(), "otlp-metrics/unexpected-field", "fields outside the mapping are set: {}", r.other);
+    match ev.first("metric_name") {
+        Some(pv) => match event::plain_text(pv) {
+            Some(t) => vassert!(cx, r.name == t, "otlp-metrics/name", "name {:?} != metric_name {:?}", r.name, t),
+            None => cx.dont_care(),
+        },
+        None => {
+            if let Some(m) = ev.ref_msg() {
+                vassert!(cx, r.name == m, "otlp-metrics/name", "name {:?} != rendered message {:?}", r.name, m);
+            }
+            rendered.push((format!("otlp-metrics-{}", if is_json { "json" } else { "proto" }), r.name.clone()));
+        }
+    }
+    match ev.first("metric_unit") {
+        None => vassert!(cx, r.unit.is_empty(), "otlp-metrics/unit", "unit {:?} without metric_unit", r.unit),
+        Some(pv) => match event::plain_text(pv) {
+            Some(t) => {
+                if r.unit != t {
+                    // whatever a later duplicate renders as: the unit did not come from the first value
+                    let later = ev.props.iter().filter(|p| p.key == "metric_unit").count() > 1;
+                    let sig = if later { SIG_D11_UNIT } else { "otlp-metrics/unit" };
+                    cx.fail(sig, format!("unit {:?} != first metric_unit {:?}", r.unit, t))?;
+                }
+            }
+            None => cx.dont_care(),
+        },
+    }
+    // aggregation → data kind
+    let agg = ev.first("metric_agg").and_then(event::plain_text);
+    let (points, is_sum): (&[Point], bool) = match (&r.data, agg.as_deref()) {
+        (MData::Sum { points, monotonic, temporality }, Some(a @ ("sum" | "count"))) => {
+            vassert!(cx, *monotonic == (a == "count"), "otlp-metrics/monotonic", "agg {a:?} but isMonotonic = {monotonic}");
+            let want = match ev.extent {
+                Ext::Range(..) => 1,
+                Ext::Point(..) => 2,
+                Ext::None => 0,
+            };
+            vassert!(cx, *temporality == want, "otlp-metrics/temporality", "temporality {temporality} != {want} for extent {:?}", ev.extent);
+            (points, true)
+        }
+        (MData::Gauge(points), a) if !matches!(a, Some("sum" | "count")) => {
+            if ev.first("metric_agg").is_some() && a.is_none() {
+                cx.dont_care();
+            }
+            (points, false)
+        }
+        (d, a) => {
+            if ev.first("metric_agg").is_some() && a.is_none() {
+                // aggregation given as something that is not text: no opinion
+                cx.dont_care();
+                match d {
+                    MData::Gauge(p) => (p, false),
+                    MData::Sum { points, .. } => (points, true),
+                    _ => return cx.fail("otlp-metrics/data-kind", format!("metric without gauge/sum data: {d:?}")),
+                }
+            } else {
+                return cx.fail("otlp-metrics/data-kind", format!("metric_agg {a:?} encoded as {}", brief(d)));
+            }
+        }
+    };
+    vassert!(cx, !points.is_empty(), "otlp-metrics/no-points", "metric without data points");
+    // times
+    let (start, end) = match &ev.extent {
+        Ext::None => (None, None),
+        Ext::Point(t) => (fits(t.nanos()), fits(t.nanos())),
+        Ext::Range(a, b) => (fits(a.nanos()), fits(b.nanos())),
+    };
+    if let (Some(s), Some(e), Some(first), Some(last)) = (start, end, points.first(), points.last()) {
+        vassert!(cx, first.start == s, "otlp-metrics/point-time", "first point starts at {} != extent start {}", first.start, s);
+        if points.len() == 1 {
+            vassert!(cx, first.time == e, "otlp-metrics/point-time", "point time {} != extent end {}", first.time, e);
+        } else {
+            vassert!(cx, last.time <= e, "otlp-metrics/point-time", "last point ends at {} > extent end {}", last.time, e);
+            for w in points.windows(2) {
+                vassert!(cx, w[0].time == w[1].start && w[0].start <= w[0].time, "otlp-metrics/point-time", "points are not contiguous: {:?} then {:?}", (w[0].start, w[0].time), (w[1].start, w[1].time));
+            }
+        }
+    } else {
+        cx.dont_care();
+    }
+    // values
+    match ev.first("metric_value").and_then(event::metric_samples) {
+        None => cx.dont_care(),
+        Some((samples, _is_seq)) => {
+            if is_sum {
+                vassert!(cx, points.len() == 1, "otlp-metrics/point-count", "sum/count produced {} points", points.len());
+                // left fold, integers stay integers until they overflow or meet a float
+                let mut acc = Num::Int(0);
+                let mut overflow = false;
+                for s in &samples {
+                    acc = match (&acc, s) {
+                        (Num::Int(a), Num::Int(b)) => match a.checked_add(*b) {
+                            Some(v) => Num::Int(v),
+                            None => {
+                                overflow = true;
+                                Num::Int(0)
+                            }
+                        },
+                        (Num::Int(a), Num::Dbl(b)) => Num::Dbl((f64::from_bits(*b) + *a as f64).to_bits()),
+                        (Num::Dbl(a), Num::Int(b)) => Num::Dbl((f64::from_bits(*a) + *b as f64).to_bits()),
+                        (Num::Dbl(a), Num::Dbl(b)) => Num::Dbl((f64::from_bits(*a) + f64::from_bits(*b)).to_bits()),
+                    };
+                    if overflow {
+                        break;
+                    }
+                }
+                if overflow || samples.is_empty() {
+                    cx.dont_care();
+                } else if let Some(p) = points.first() {
+                    vassert!(cx, num_matches(&acc, &p.value, is_json), "otlp-metrics/point-value", "sum of {:?} is {:?}, point carries {:?}", samples, acc, p.value);
+                }
+            } else {
+                vassert!(cx, points.len() == samples.len(), "otlp-metrics/point-count", "{} samples but {} points", samples.len(), points.len());
+                for (s, p) in samples.iter().zip(points) {
+                    vassert!(cx, num_matches(s, &p.value, is_json), "otlp-metrics/point-value", "sample {:?} encoded as {:?}", s, p.value);
+                }
+            }
+        }
+    }
+    if is_json {
+        for p in points {
+            if p.value_field == "value" {
+                cx.fail(SIG_POINT_MEMBER, "NumberDataPoint value written as JSON member \"value\"; the OTLP schema names it \"asInt\"/\"asDouble\", so a schema-driven reader sees a point without a value")?;
+                break;
+            }
+        }
+    }
+    // attributes of every point
+    let expected = expectations(ev, |k, _| {
+        matches!(k, "metric_name" | "metric_value" | "metric_agg" | "metric_unit" | "evt_kind" | "span_id" | "span_parent" | "trace_id")
+    });
+    let ignore = ["evt_kind", "span_id", "span_parent", "trace_id"];
+    for (i, p) in points.iter().enumerate() {
+        vassert!(cx, p.other.is_empty(), "otlp-metrics/unexpected-field", "point fields outside the mapping are set: {}", p.other);
+        if i == 0 {
+            check_attrs(sink, &p.attrs, &expected, &ignore, is_json, cx)?;
+        } else {
+            vassert!(cx, p.attrs == points[0].attrs, "otlp-metrics/point-attributes-differ", "point {i} carries other attributes than point 0");
+        }
+    }
+    Ok(())
+}
+
+fn check_decoded(ev: &Ev, d: &Decoded, is_json: bool, cx: &mut Cx, rendered: &mut Vec<(String, String)>) -> Res {
+    let enc = if is_json { "json" } else { "proto" };
+    let n = d.logs.len() + d.spans.len() + d.metrics.len();
+    if n != 1 {
+        return cx.fail("otlp/record-count", format!("one event produced {n} records ({enc}): {}", brief(d)));
+    }
+    vassert!(cx, d.resources == 0, "otlp/unexpected-resource", "a resource appeared although none is configured");
+    if let Some(r) = d.logs.first() {
+        cx.class(&format!("otlp-logs-{enc}"));
+        check_log(ev, r, is_json, cx, rendered)?;
+    }
+    if let Some(r) = d.spans.first() {
+        cx.class(&format!("otlp-traces-{enc}"));
+        check_span(ev, r, is_json, cx, rendered)?;
+    }
+    if let Some(r) = d.metrics.first() {
+        cx.class(&format!("otlp-metrics-{enc}"));
+        check_metric(ev, r, is_json, cx, rendered)?;
+    }
+    Ok(())
+}
+
+fn decode_request(req: &http::Req, cx: &mut Cx) -> Result<Option<(Decoded, bool)>, Fail> {
+    let signal = if req.path.ends_with("/v1/logs") {
+        0
+    } else if req.path.ends_with("/v1/traces") {
+        1
+    } else if req.path.ends_with("/v1/metrics") {
+        2
+    } else {
+        cx.fail("otlp/unknown-endpoint", format!("request to {}", req.path))?;
+        return Ok(None);
+    };
+    let body: Vec<u8> = if req.content_encoding.eq_ignore_ascii_case("gzip") {
+        use std::io::Read;
+        let mut out = Vec::new();
+        if flate2::read::GzDecoder::new(&req.body[..]).read_to_end(&mut out).is_err() {
+            cx.fail("otlp/bad-gzip", "request body is not valid gzip")?;
+            return Ok(None);
+        }
+        out
+    } else {
+        req.body.clone()
+    };
+    if req.content_type.contains("json") {
+        let text = match std::str::from_utf8(&body) {
+            Ok(t) => t,
+            Err(_) => {
+                cx.fail("otlp-json/not-utf8", "JSON body is not UTF-8")?;
+                return Ok(None);
+            }
+        };
+        let jv = match jsonp::parse(text) {
+            Ok(j) => j,
+            Err(e) => {
+                cx.fail("otlp-json/invalid-json", format!("{e}: {}", brief(text)))?;
+                return Ok(None);
+            }
+        };
+        let d = match signal {
+            0 => otlp::decode_logs_json(&jv),
+            1 => otlp::decode_traces_json(&jv),
+            _ => otlp::decode_metrics_json(&jv),
+        };
+        match d {
+            Ok(d) => Ok(Some((d, true))),
+            Err(e) => {
+                cx.fail("otlp-json/schema-error", format!("{e}: {}", brief(text)))?;
+                Ok(None)
+            }
+        }
+    } else {
+        vassert!(cx, req.content_type == "application/x-protobuf", "otlp/content-type", "content type {:?}", req.content_type);
+        let d = match signal {
+            0 => otlp::decode_logs_proto(&body),
+            1 => otlp::decode_traces_proto(&body),
+            _ => otlp::decode_metrics_proto(&body),
+        };
+        match d {
+            Ok(d) => Ok(Some((d, false))),
+            Err(e) => {
+                cx.fail("otlp-proto/decode-error", format!("{e}: {} bytes", body.len()))?;
+                Ok(None)
+            }
+        }
+    }
+}
+
+#[derive(Clone, Copy, Debug, PartialEq, Eq)]
+pub struct Sinks {
+    pub file: bool,
+    pub otlp: bool,
+    pub term: bool,
+}
+
+pub const ALL_SINKS: Sinks = Sinks { file: true, otlp: true, term: true };
+
+/// The whole oracle for one event.
+pub fn check_event(ev: &Ev, cx: &mut Cx, sinks_on: Sinks) -> Res {
+    let shape = classify(ev, cx);
+    let mut rendered: Vec<(String, String)> = Vec::new();
+
+    if sinks_on.file || sinks_on.otlp {
+        sinks::with_pipeline(|pl| -> Res {
+            // ---- emit (the calling thread is this one: a panic here is a panic in the caller)
+            let mut file_ok = false;
+            if sinks_on.file {
+                match vcore::catch(|| ev.with_event(|e| pl.file.emit(e))) {
+                    Ok(()) => file_ok = true,
+                    Err(p) => cx.fail(emit_panic_sig("file", &shape, &p), format!("emit_file panicked on the emitting thread: {}", p.msg))?,
+                }
+            }
+            let mut emitted = [false; 4];
+            if sinks_on.otlp {
+                // keep every signal's receiver warm (see `sinks::warm_up`); these records are filtered out below
+                sinks::warm_up(&pl.full_proto);
+                sinks::warm_up(&pl.full_json);
+                let ems = [&pl.full_proto, &pl.full_json, &pl.logs_proto, &pl.logs_json];
+                let names = ["otlp(all signals, protobuf)", "otlp(all signals, json)", "otlp(logs, protobuf)", "otlp(logs, json)"];
+                for (i, em) in ems.iter().enumerate() {
+                    match vcore::catch(|| ev.with_event(|e| em.emit(e))) {
+                        Ok(()) => emitted[i] = true,
+                        Err(p) => cx.fail(emit_panic_sig("otlp", &shape, &p), format!("{} panicked on the emitting thread: {}", names[i], p.msg))?,
+                    }
+                }
+            }
+            // ---- flush
+            if sinks_on.file && !pl.file.blocking_flush(sinks::FLUSH) {
+                return cx.fail("harness/file-flush-timeout", "emit_file did not flush within 60 s");
+            }
+            if sinks_on.otlp {
+                for em in [&pl.full_proto, &pl.full_json, &pl.logs_proto, &pl.logs_json] {
+                    if !em.blocking_flush(sinks::FLUSH) {
+                        return cx.fail("harness/otlp-flush-timeout", "emit_otlp did not flush against an ack-everything collector within 60 s");
+                    }
+                }
+            }
+            // ---- file oracle
+            if sinks_on.file {
+                let bytes = pl.new_file_bytes().map_err(|e| Fail::new("harness/file-read", e.to_string()))?;
+                if file_ok {
+                    cx.class("sink-file");
+                    check_file(ev, &shape, &bytes, cx, &mut rendered)?;
+                }
+            }
+            // ---- OTLP oracle
+            if sinks_on.otlp {
+                let reqs = pl.take_requests();
+                let mut decoded: [Option<Decoded>; 4] = [None, None, None, None];
+                for (i, tag) in ["/fp/", "/fj/", "/lp/", "/lj/"].iter().enumerate() {
+                    let mine: Vec<&http::Req> = reqs.iter().filter(|r| r.path.contains(tag)).collect();
+                    if !emitted[i] {
+                        continue;
+                    }
+                    let want_json = i % 2 == 1;
+                    let mut all = Decoded::default();
+                    let mut complete = true;
+                    for r in &mine {
+                        match decode_request(r, cx)? {
+                            Some((d, is_json)) => {
+                                vassert!(cx, is_json == want_json, "otlp/content-type", "pipeline {tag} sent content type {:?}", r.content_type);
+                                all.logs.extend(d.logs.into_iter().filter(|x| x.scope != sinks::WARMUP_MDL));
+                                all.spans.extend(d.spans.into_iter().filter(|x| x.scope != sinks::WARMUP_MDL));
+                                all.metrics.extend(d.metrics.into_iter().filter(|x| x.scope != sinks::WARMUP_MDL));
+                                all.resources += d.resources;
+                            }
+                            None => complete = false,
+                        }
+                    }
+                    if complete {
+                        check_decoded(ev, &all, want_json, cx, &mut rendered)?;
+                        decoded[i] = Some(all);
+                    }
+                }
+                // protobuf ⇔ JSON: same records
+                for (p, j) in [(0, 1), (2, 3)] {
+                    if let (Some(dp), Some(dj)) = (&decoded[p], &decoded[j]) {
+                        if let Some(diff) = otlp::disagreement(dp, dj) {
+                            let null_seq = ev.props.iter().any(|pr| matches!(&pr.val, PV::Node { node, cap: Cap::Sval | Cap::Serde | Cap::Prim } if node_has_null_in_seq(node)));
+                            if null_seq && otlp::disagreement(dp, &strip_decoded(dj)).is_none() {
+                                cx.fail(SIG_NULL_DROP, format!("protobuf drops null elements of arrays that JSON keeps: {diff}"))?;
+                            } else {
+                                cx.fail("otlp/proto-json-disagree", diff)?;
+                            }
+                        }
+                    }
+                }
+            }
+            Ok(())
+        })?;
+    }
+
+    // every sink renders the same message
+    if let Some((s0, m0)) = rendered.first() {
+        for (s, m) in &rendered[1..] {
+            vassert!(cx, m == m0, "cross-sink/message-differs", "{s} rendered {:?} but {s0} rendered {:?}", m, m0);
+        }
+    }
+
+    if sinks_on.term {
+        check_term(ev, cx)?;
+    }
+    Ok(())
+}
+
+// ---------------------------------------------------------------------------------------------
+// terminal
+
+fn strip_ansi(s: &str) -> String {
+    let mut out = String::new();
+    let mut it = s.chars().peekable();
+    while let Some(c) = it.next() {
+        if c == '\u{1b}' && it.peek() == Some(&'[') {
+            it.next();
+            for c2 in it.by_ref() {
+                if c2.is_ascii_alphabetic() {
+                    break;
+                }
+            }
+        } else {
+            out.push(c);
+        }
+    }
+    out
+}
+
+/// Fragments of the message that must appear, in order, in the terminal rendering: template text and
+/// the holes whose text is plain enough that no writer would decorate it.
+fn term_fragments(ev: &Ev) -> Vec<String> {
+    let mut out = Vec::new();
+    for p in &ev.tpl {
+        match p {
+            TplPart::Text(t) => {
+                if !t.is_empty() {
+                    out.push(t.clone());
+                }
+            }
+            TplPart::Hole(l) => match ev.first(l) {
+                None => out.push(format!("{{{l}}}")),
+                Some(PV::Node { node, cap: Cap::Prim }) => match node {
+                    Node::Bool(_) | Node::I8(_) | Node::I16(_) | Node::I32(_) | Node::I64(_) | Node::U8(_) | Node::U16(_) | Node::U32(_) | Node::U64(_) => {
+                        if let Some(t) = event::display_text(ev.first(l).unwrap()) {
+                            out.push(t);
+                        }
+                    }
+                    Node::Str(s) if !s.is_empty() && s.chars().all(|c| c.is_ascii_alphanumeric() || c == ' ' || c == '_') => out.push(s.clone()),
+                    _ => {}
+                },
+                _ => {}
+            },
+        }
+    }
+    out
+}
+
+fn contains_in_order(hay: &str, frags: &[String]) -> Option<String> {
+    let mut pos = 0;
+    for f in frags {
+        match hay[pos..].find(f.as_str()) {
+            Some(p) => pos += p + f.len(),
+            None => return Some(f.clone()),
+        }
+    }
+    None
+}
+
+pub fn check_term(ev: &Ev, cx: &mut Cx) -> Res {
+    let out = sinks::run_term_child(ev).map_err(|e| Fail::new("harness/term-child-spawn", e.to_string()))?;
+    cx.class("sink-term");
+    if !out.status_ok {
+        // the child died: emit_term panicked (or crashed) while writing the event
+        let line = out.stderr.lines().find(|l| l.contains("panicked at")).unwrap_or("").to_string();
+        let next = out.stderr.lines().skip_while(|l| !l.contains("panicked at")).nth(1).unwrap_or("").to_string();
+        let file = line.split("panicked at ").nth(1).unwrap_or("").split(':').next().unwrap_or("").trim_start_matches("/repo/").to_string();
+        let sig = if line.is_empty() { "term/child-failed".to_string() } else { format!("term/panic@{}", file) };
+        return cx.fail(sig, format!("terminal writer child exited with {}: {line} {next}", out.status));
+    }
+    let plain = String::from_utf8_lossy(&out.plain).into_owned();
+    let coloured = String::from_utf8_lossy(&out.coloured).into_owned();
+    vassert!(cx, !plain.is_empty(), "term/empty-output", "plain terminal output is empty");
+    vassert!(cx, !coloured.is_empty(), "term/empty-output", "coloured terminal output is empty");
+    let frags = term_fragments(ev);
+    if let Some(missing) = contains_in_order(&plain, &frags) {
+        cx.fail("term/message-missing", format!("plain output {plain:?} does not contain message fragment {missing:?}"))?;
+    }
+    if frags.iter().all(|f| !f.contains('\u{1b}')) {
+        if let Some(missing) = contains_in_order(&strip_ansi(&coloured), &frags) {
+            cx.fail("term/message-missing", format!("coloured output {coloured:?} does not contain message fragment {missing:?}"))?;
+        }
+    } else {
+        cx.dont_care();
+    }
+    cx.class_if(ev.first("metric_value").is_some() && plain.lines().count() >= 2, "term-sparkline-or-detail");
+    Ok(())
+}
